@@ -18,6 +18,9 @@ int arr[3]; int arr2[3]; int arr4[4]; int arr42[4]; bool barr[3]; bool barr2[3];
 chan c1, c2; broadcast chan bc1, bc2; urgent chan uc1, uc2; chan carr1[2]; chan carr2[2];
 const int ci = 1, ci2 = 2; const int[0,5] cr = 1, cr2 = 2; const bool cb = true, cb2 = false; const double cd = 1.5, cd2 = 2.5; const SA csa = {1,2}, csa2 = {3,4}; const SB csb = {1,true}, csb2 = {2,false};
 const int carr[3] = {1,2,3}; const int carrb[3] = {1,2,3}; const int carr4[4] = {1,2,3,4}; const int carr4b[4] = {1,2,3,4};
+typedef int[0,5] T5; typedef int[0,3] T3; T5 t5v, t5w; T3 t3v, t3w; int[0,3] b3v, b3w; int[0,3] ba0[2]; int[0,3] ba0b[2]; T5 ba5[2]; T5 ba5b[2]; const int[0,5] cba5[2] = {1,2};
+typedef struct { int[0,3] f; } SR3; SR3 sr3, sr3b; typedef struct { T5 f; } SR5; SR5 sr5, sr5b; const T5 ct5 = 2;
+void f_T5(T5 &a) {} void f_T3(T3 &a) {} void f_b3(int[0,3] &a) {} void f_ba0(int[0,3] &a[2]) {} void f_ba5(T5 &a[2]) {} void g_T5(const T5 &a) {} void g_b3(const int[0,3] &a) {}
 int f1(int a) { return a; } double fd(double a) { return a; } bool fb(int a) { return a > 0; }
 void f_int(int &a) {} void f_bint(int[0,5] &a) {} void f_w(int[0,7] &a) {} void f_bool(bool &a) {} void f_double(double &a) {} void f_clock(clock &a) {}
 void f_S(S &a) {} void f_S2(S2 &a) {} void f_SA(SA &a) {} void f_SB(SB &a) {} void f_SC(SC &a) {} void f_arr(int &a[3]) {} void f_arr4(int &a[4]) {} void f_barr(bool &a[3]) {}
@@ -50,6 +53,12 @@ CLASSES = {
     'urgent-channel': ['uc1', 'uc2'],
     'channel-array': ['carr1', 'carr2'],
     'string': ['"abc"', '"de"', '""'],
+    'typedef-bounded-int': ['t5v', 't5w', 'ct5', 'ba5[0]', 'sr5.f'],
+    'bounded-int-0-3': ['b3v', 'b3w', 't3v', 'ba0[1]', 'sr3.f'],
+    'bounded-array-0-3': ['ba0', 'ba0b'],
+    'typedef-bounded-array-0-5': ['ba5', 'ba5b', 'cba5'],
+    'struct-bounded-0-3': ['sr3', 'sr3b'],
+    'struct-typedef-bounded-0-5': ['sr5', 'sr5b'],
 }
 
 # inline-if inside a context that needs an lvalue / a reference argument: ctx(c ? A : B) vs ctx(!c ? B : A)
@@ -60,6 +69,9 @@ CONTEXTS = {
     'int[3]': (['arr', 'arr2', 'carr', 'carrb'], ['f_arr(%s)', 'g_arr(%s)', '(%s)[0] = 1', '(%s) = arr2', '(%s)[1]']),
     'bool': (['p', 'q', 'cb', 'true', 'i < j'], ['f_bool(%s)', 'g_bool(%s)', '(%s) = true', '!(%s)']),
     'double': (['d', 'e', 'cd', '1.5', 'd + 1.0'], ['f_double(%s)', 'g_double(%s)', '(%s) = 1.0', '(%s) + 1.0']),
+    'bounded-arrays': (['ba0', 'ba5', 'cba5', 'ba0b'], ['f_ba0(%s)', 'f_ba5(%s)', '(%s)[0] = 1', '(%s) = ba0b', '(%s)[1]']),
+    'bounded-structs': (['sr3', 'sr5', 'sr3b'], ['(%s).f = 1', '(%s) = sr3b', '(%s).f']),
+    'bounded-ints': (['b3v', 't5v', 'ct5', 't3v', 'r'], ['f_b3(%s)', 'f_T5(%s)', 'g_b3(%s)', '(%s) = 1', '(%s)++']),
 }
 OPS = ['+', '*', '==', '!=', '&&', '||', '&', '|', '^', '<?', '>?']
 CONDS = ['p', 'i < j', 'true']
@@ -85,6 +97,11 @@ REFS = {
     'chan[2]': ('f_carr', None, ['carr1', 'carr2'], []),
     'double[2]': ('f_darr', None, ['darr', 'darr2'], []),
     'clock[2]': ('f_xarr', None, ['xarr', 'xarr2'], []),
+    'T5': ('f_T5', 'g_T5', ['t5v', 't5w'], []),
+    'T3': ('f_T3', None, ['t3v', 't3w'], []),
+    'int[0,3]': ('f_b3', 'g_b3', ['b3v', 'b3w'], []),
+    'int[0,3][2]': ('f_ba0', None, ['ba0', 'ba0b'], []),
+    'T5[2]': ('f_ba5', None, ['ba5', 'ba5b'], []),
 }
 
 RULE = ('operand expressions are drawn from %d type classes (%s) - variables, constants, literals and compound expressions of each '
